@@ -1,6 +1,7 @@
 use crate::report::{Ctx, Outcome};
 
 pub mod c01;
+pub mod c03;
 pub mod c05;
 pub mod c07;
 pub mod c12;
@@ -13,6 +14,7 @@ pub mod c20;
 pub fn dispatch(ctx: &Ctx) -> Option<Outcome> {
     Some(match ctx.id.as_str() {
         "C01" => c01::run(ctx),
+        "C03" => c03::run(ctx),
         "C05" => c05::run(ctx),
         "C07" => c07::run(ctx),
         "C12" => c12::run(ctx),
